@@ -42,15 +42,15 @@ func c18bin() {
 	B := conf{"B", filepath.Join(dir, "B"), 2, mk(0x70)}
 	cfg := filepath.Join(dir, "store.yml")
 	for _, c := range []conf{A, B} {
-		os.MkdirAll(filepath.Join(c.base, ".tmp"), 0700)                       //nolint:errcheck
+		os.MkdirAll(filepath.Join(c.base, ".tmp"), 0700)                 //nolint:errcheck
 		os.WriteFile(cfg, []byte(ref.YAML(c.base, c.def, c.sets)), 0600) //nolint:errcheck
 		d, err := store.NewDirFromConfig(cfg)
 		if err != nil {
 			R.Fatal = err.Error()
 			return
 		}
-		d.AddUser("root", "root"+c.name, true)   //nolint:errcheck
-		d.AddUser("mix", "mix"+c.name, false)    //nolint:errcheck
+		d.AddUser("root", "root"+c.name, true)       //nolint:errcheck
+		d.AddUser("mix", "mix"+c.name, false)        //nolint:errcheck
 		d.AddUser("only"+c.name, "pw"+c.name, false) //nolint:errcheck
 	}
 	os.WriteFile(cfg, []byte(ref.YAML(A.base, A.def, A.sets)), 0600) //nolint:errcheck
